@@ -4589,7 +4589,12 @@ ASTNode *parse_program(Token *tokens, int token_count) {
 
 /* Free AST */
 void free_ast(ASTNode *node) {
-    if (!node) return;
+  /* The first operand of an operator node and the object of a field / tuple access are freed by
+   * the next round of this loop, not by recursion: infix and access chains are left-deep trees
+   * whose depth is the product of every nesting bound the parser has (parenthesised groups x
+   * operators per chain), far more than the C stack holds. */
+  while (node) {
+    ASTNode *next = NULL;
 
     switch (node->type) {
         case AST_STRING:
@@ -4599,8 +4604,11 @@ void free_ast(ASTNode *node) {
             free(node->as.identifier);
             break;
         case AST_PREFIX_OP:
-            for (int i = 0; i < node->as.prefix_op.arg_count; i++) {
+            for (int i = 1; i < node->as.prefix_op.arg_count; i++) {
                 free_ast(node->as.prefix_op.args[i]);
+            }
+            if (node->as.prefix_op.arg_count > 0) {
+                next = node->as.prefix_op.args[0];
             }
             free(node->as.prefix_op.args);
             break;
@@ -4802,7 +4810,7 @@ void free_ast(ASTNode *node) {
             free(node->as.struct_literal.field_values);
             break;
         case AST_FIELD_ACCESS:
-            free_ast(node->as.field_access.object);
+            next = node->as.field_access.object;
             free(node->as.field_access.field_name);
             break;
         case AST_ENUM_DEF:
@@ -4877,4 +4885,6 @@ void free_ast(ASTNode *node) {
     }
 
     free(node);
+    node = next;
+  }
 }
